@@ -691,12 +691,20 @@ class DocGen:
         node = self.field(root, fname, 0, scope, used, ufrags, frags)
         sels = [node]
         if c.maybe(30):
-            # the same response key selected again (directly or inside an inline fragment): CollectFields still
+            # the same response key selected again (directly, inside an inline fragment or through a named fragment): CollectFields still
             # yields exactly one entry, so the operation stays valid (June 2018, 5.2.3.1)
             self._suppress_once = True
             twin = self.field(root, fname, 0, scope, used, ufrags, frags, force_key=node["alias"] or node["name"])
-            if c.maybe(40):
+            place = c.weighted([(4, "direct"), (3, "inline"), (3, "named")])
+            if place == "inline":
                 twin = {"k": "inline", "on": c.choice([None, root]), "dirs": [], "sels": [twin], "id": self.nid()}
+            elif place == "named":
+                # through a fragment of its own on the subscription root (never offered to other selections)
+                name = "FS%d" % len(self.extra_frags)
+                self.extra_frags.append({"k": "frag", "name": name, "on": root, "dirs": [], "sels": [twin], "id": self.nid(), "sig": Scope(), "uses_frags": set(), "uses_vars_all": set()})
+                ufrags.add(name)
+                twin = {"k": "spread", "name": name, "dirs": [], "id": self.nid()}
+                self.stat("subscription_root_repeated_via_named_fragment")
             sels.insert(c.int(0, 1), twin)
             self.stat("subscription_root_repeated")
         for _ in range(c.weighted([(6, 0), (3, 1), (1, 2)])):
@@ -725,6 +733,7 @@ class DocGen:
         o = self.o
         nfr = c.int(0, o["max_frags"])
         frags = []
+        self.extra_frags = []
         for i in reversed(range(nfr)):
             frags.append(self.fragment(i, list(frags)))
         op_types = o["op_types"] or (["query", "mutation"] if self.schema["roots"].get("mutation") else ["query"])
@@ -747,6 +756,7 @@ class DocGen:
                 op["shorthand"] = True
             ops.append(op)
         # reachability
+        frags = frags + self.extra_frags
         by_name = {f["name"]: f for f in frags}
         reach_all = set()
         for op in ops:
